@@ -752,10 +752,20 @@ func famBytes(r *rng.R, id int) *famOut {
 func famEnum(r *rng.R, id int) *famOut {
 	p := fmt.Sprintf("E%d", id)
 	f := &famOut{}
-	under := rng.Pick(r, []string{"int", "string", "uint8"})
+	under := rng.Pick(r, []string{"int", "string", "uint8", "string"})
+	// member values that only differ late: long strings with a common prefix of 70 characters, floats that agree in
+	// their first seven significant digits (distinct values are distinct members)
+	longVals := r.Chance(40)
 	lit := func(i int) string {
-		if under == "string" {
+		switch {
+		case under == "string" && longVals:
+			return fmt.Sprintf("%q", "urn:example:"+strings.Repeat("x", 60)+fmt.Sprintf(":v%d", i))
+		case under == "string":
 			return fmt.Sprintf("%q", fmt.Sprintf("v%d", i))
+		case under == "float64" && longVals:
+			return fmt.Sprintf("3.1415926%02d", i)
+		case under == "float64":
+			return fmt.Sprintf("%d.5", i)
 		}
 		return fmt.Sprint(i)
 	}
@@ -1111,5 +1121,32 @@ type %[1]sOut2 struct {
 	}
 	b.WriteString("}\n\n")
 	f.add(p+"C", b.String())
+	return f
+}
+
+// famEnumOff: a named basic type WITH constants converted by two converters of one run: the first treats the pair as enums
+// (switch by member name), the second excludes it (enum:exclude / enum no at converter or method level): there the value
+// is converted as a plain named basic — unchanged, also for non-member values (C02), whatever the sibling converter did.
+func famEnumOff(r *rng.R, id int) *famOut {
+	p := fmt.Sprintf("O%d", id)
+	f := &famOut{}
+	f.Types = fmt.Sprintf("type %[1]sLv int\n\nconst (\n\t%[1]sLvLow %[1]sLv = 0\n\t%[1]sLvMid %[1]sLv = 1\n\t%[1]sLvHigh %[1]sLv = 2\n)\n\ntype %[1]sTv int\n\nconst (\n\t%[1]sTvLow %[1]sTv = 10\n\t%[1]sTvMid %[1]sTv = 20\n\t%[1]sTvHigh %[1]sTv = 30\n)\n\ntype %[1]sIn struct {\n\tL  %[1]sLv\n\tLs []%[1]sLv\n}\ntype %[1]sOut struct {\n\tL  %[1]sTv\n\tLs []%[1]sTv\n}\n", p)
+	on := fmt.Sprintf("// goverter:converter\n// goverter:enum:unknown @ignore\n// goverter:enum:transform regex %[1]sLv(\\w+) %[1]sTv$1\ntype %[1]sA interface {\n\tConvert(source %[1]sIn) %[1]sOut\n\tOne(source %[1]sLv) %[1]sTv\n}\n\n", p)
+	var off string
+	switch r.Intn(3) {
+	case 0:
+		off = fmt.Sprintf("// goverter:converter\n// goverter:enum:unknown @ignore\n// goverter:enum:exclude MODULE/p:%[1]sLv\ntype %[1]sB interface {\n\tConvert(source %[1]sIn) %[1]sOut\n\tOne(source %[1]sLv) %[1]sTv\n}\n\n", p)
+	case 1:
+		off = fmt.Sprintf("// goverter:converter\n// goverter:enum no\ntype %[1]sB interface {\n\tConvert(source %[1]sIn) %[1]sOut\n\tOne(source %[1]sLv) %[1]sTv\n}\n\n", p)
+	default:
+		off = fmt.Sprintf("// goverter:converter\n// goverter:enum:unknown @ignore\n// goverter:enum:transform regex %[1]sLv(\\w+) %[1]sTv$1\ntype %[1]sB interface {\n\t// goverter:enum no\n\tConvert(source %[1]sIn) %[1]sOut\n\tOne(source %[1]sLv) %[1]sTv\n}\n\n", p)
+	}
+	if r.Bool() {
+		f.add(p+"A", on)
+		f.add(p+"B", off)
+	} else {
+		f.add(p+"B", off)
+		f.add(p+"A", on)
+	}
 	return f
 }
